@@ -45,7 +45,7 @@ def run(ctx):
             ctx.violation("translator:dist", {"theorem": "gen/DistGen.v / theories/Cmom.v"},
                           "the translated distribution moments (gen/DistGen.v) no longer build", no_input=True)
     while len(progs) < n_prog + len(cont_texts) and not ctx.replay:
-        g = gen.G(ctx.rng, max_depth=ctx.rng.choice([1, 2]))
+        g = gen.G(ctx.rng, max_depth=ctx.rng.choice([1, 2]), rational=(len(progs) % 4 == 3))
         p = g.program()
         progs.append((p, g.goals(2), "+".join(sorted(g.features))))
     tasks = [{"kind": "analyze", "text": P.prog_text(p), "goals": [gen.goal_text(m) for m in goals], "solve": False,
